@@ -201,6 +201,14 @@ class DomainAdapter(Adapter):
             rxy = d.to_real(2.5 * x - 0.75 * y)
             if rel(rxy, 2.5 * rx - 0.75 * ry) > tol or rel(rx, MR @ x0) > tol:
                 bad('Linear.backward', err=rel(rxy, 2.5 * rx - 0.75 * ry), err_vs_spec=rel(rx, MR @ x0))
+            # linear also across magnitudes: tiny and huge multiples of a vector (a pair function of a dilute / a dense system)
+            for A in (1e-9, 1e-13, 1e7):
+                if rel(d.to_fourier(A * x0), A * fx) > tol:
+                    bad('Linear.forward.scale', amplitude=A, err=rel(d.to_fourier(A * x0), A * fx))
+                    break
+                if rel(d.to_real(A * x0), A * rx) > tol:
+                    bad('Linear.backward.scale', amplitude=A, err=rel(d.to_real(A * x0), A * rx))
+                    break
             if not (np.array_equal(x, x0) and np.array_equal(y, y0)):
                 bad('TransformLeavesInputUnmodified')
             # round trips: bounded by cond * eps; the k<->r maps have condition ~ n^2
